@@ -369,6 +369,10 @@ func NewArithmeticExpressionPart(operator Operator) *PartialArithmeticExpression
 }
 
 func (s *PartialArithmeticExpression) copy() *PartialArithmeticExpression {
+	if s == nil {
+		return nil
+	}
+
 	return &PartialArithmeticExpression{
 		Operator: s.Operator,
 		Right:    Copy(s.Right),
@@ -385,6 +389,10 @@ func NewArithmeticExpression() *ArithmeticExpression {
 }
 
 func (s *ArithmeticExpression) copy() *ArithmeticExpression {
+	if s == nil {
+		return nil
+	}
+
 	return &ArithmeticExpression{
 		Left:     Copy(s.Left),
 		Partials: Copy(s.Partials),
@@ -405,6 +413,10 @@ func NewUnaryAddOrSubtractExpression() *UnaryAddOrSubtractExpression {
 }
 
 func (s *UnaryAddOrSubtractExpression) copy() *UnaryAddOrSubtractExpression {
+	if s == nil {
+		return nil
+	}
+
 	return &UnaryAddOrSubtractExpression{
 		Operator: s.Operator,
 		Right:    Copy(s.Right),
@@ -845,6 +857,10 @@ func NewStringLiteral(value string) *Literal {
 }
 
 func (s *Literal) copy() *Literal {
+	if s == nil {
+		return nil
+	}
+
 	return &Literal{
 		Value: s.Value,
 		Null:  s.Null,
@@ -1063,6 +1079,10 @@ func NewParenthetical(expression Expression) *Parenthetical {
 }
 
 func (s *Parenthetical) copy() *Parenthetical {
+	if s == nil {
+		return nil
+	}
+
 	return &Parenthetical{
 		Expression: Copy(s.Expression),
 	}
@@ -1245,6 +1265,10 @@ func NewPartialComparison(operator Operator, right Expression) *PartialCompariso
 }
 
 func (s *PartialComparison) copy() *PartialComparison {
+	if s == nil {
+		return nil
+	}
+
 	return &PartialComparison{
 		Operator: s.Operator,
 		Right:    Copy(s.Right),
@@ -1344,6 +1368,10 @@ type PatternElement struct {
 }
 
 func (s *PatternElement) copy() *PatternElement {
+	if s == nil {
+		return nil
+	}
+
 	return &PatternElement{
 		Element: Copy(s.Element),
 	}
@@ -1481,6 +1509,10 @@ type SortItem struct {
 }
 
 func (s *SortItem) copy() *SortItem {
+	if s == nil {
+		return nil
+	}
+
 	return &SortItem{
 		Ascending:  s.Ascending,
 		Expression: Copy(s.Expression),
